@@ -506,6 +506,44 @@ fn anf<'a>(
             )
         }
         LiftExpr::EBinary {
+            op: BinaryOp::And,
+            lhs,
+            rhs,
+            ty,
+        } => anf(
+            anfenv,
+            gensym,
+            LiftExpr::EIf {
+                cond: lhs,
+                then_branch: rhs,
+                else_branch: Box::new(LiftExpr::EPrim {
+                    value: Prim::boolean(false),
+                    ty: Ty::TBool,
+                }),
+                ty,
+            },
+            k,
+        ),
+        LiftExpr::EBinary {
+            op: BinaryOp::Or,
+            lhs,
+            rhs,
+            ty,
+        } => anf(
+            anfenv,
+            gensym,
+            LiftExpr::EIf {
+                cond: lhs,
+                then_branch: Box::new(LiftExpr::EPrim {
+                    value: Prim::boolean(true),
+                    ty: Ty::TBool,
+                }),
+                else_branch: rhs,
+                ty,
+            },
+            k,
+        ),
+        LiftExpr::EBinary {
             op,
             lhs,
             rhs,
